@@ -23,6 +23,9 @@ def get(name):
     elif name == "C16":
         from .engine_container import ContainerEngine
         e = ContainerEngine()
+    elif name == "C18":
+        from .engine_registry import RegistryEngine
+        e = RegistryEngine()
     else:
         raise KeyError(name)
     _cache[name] = e
